@@ -54,7 +54,7 @@ struct Plan {
   SchedSpec sched;
 };
 
-static const char* kStratName[] = {"serial", "opgrain", "sync", "walk", "pct", "explicit"};
+static const char* kStratName[] = {"serial", "opgrain", "sync", "walk", "pct", "explicit", "lockstep"};
 static const char* kFaultName[] = {"preempt", "stall", "late_start"};
 
 static std::string plan_to_text(const Plan& pl) {
@@ -131,7 +131,7 @@ static bool plan_from_text(const char* text, Plan& pl, std::string& err) {
       char sn[32];
       if (sscanf(rest, "%31s %" SCNu64 " %lf %d", sn, &pl.sched.seed, &pl.sched.p, &pl.sched.depth) != 4) { err = "bad sched"; return false; }
       pl.sched.strategy = -1;
-      for (int i = 0; i < 6; ++i)
+      for (int i = 0; i < 7; ++i)
         if (!strcmp(sn, kStratName[i])) pl.sched.strategy = i;
       if (pl.sched.strategy < 0) { err = "bad strategy"; return false; }
       continue;
@@ -731,8 +731,12 @@ static void gen_sched(uint64_t seed, uint64_t widx, uint64_t sidx, const Plan& p
   if (refs.lock_events > 0 && r.coin(0.5)) {
     // the code under test takes locks: concentrate the switches on synchronisation events, where
     // lock-order and check-then-act problems live
-    sc.strategy = sim::S_SYNC;
-    sc.p = r.coin(0.5) ? 0.5 : 0.25;
+    if (r.coin(0.4)) {
+      sc.strategy = sim::S_LOCKSTEP;
+    } else {
+      sc.strategy = sim::S_SYNC;
+      sc.p = r.coin(0.5) ? 0.5 : 0.25;
+    }
   } else if (u < 0.35) {
     sc.strategy = sim::S_WALK;
     sc.p = walk_p[r.below(6)];
